@@ -41,14 +41,15 @@ func (c *CriteriaMixing) Spec_Apply(
 	props *model.BiasProps,
 	listener *model.BiasListener,
 ) *model.BiasedResult {
+	// C20: the props are validated whether or not there is anything to mix
+	parsedProps := Spec_parseProps(props)
+	referenceCriterionProvider := c.referenceCriteriaManager.Spec_ForParams(props)
 	if current.Criteria.Spec_Len() < 2 {
 		return &model.BiasedResult{DMP: current}
 	}
-	parsedProps := Spec_parseProps(props)
 	generator := c.generatorSource(parsedProps.RandomSeed)
 	c2m := Spec_selectCriteriaToMix(current, generator)
 	allAlternatives := current.Spec_AllAlternatives()
-	referenceCriterionProvider := c.referenceCriteriaManager.Spec_ForParams(props)
 	referenceCriterion := Spec_referenceCriterion(current, listener, referenceCriterionProvider)
 	targetValRange := model.Spec_ValuesRangeWithGroundZero(&allAlternatives, referenceCriterion)
 	mixResult := c2m.Spec_mix(&allAlternatives, targetValRange, parsedProps)
